@@ -219,3 +219,71 @@ def update_only_twin(ctx):
             except Exception:
                 continue   # update exceptions belong to C10
             ctx.nontriv(("twin", name, seed))
+
+
+BIQF_IMPORTS = ("From Coq Require Import PrimFloat.\nFrom V Require Import Base.Num Model.StreamCore Model.Biqf "
+                "Harness.Run Harness.StreamCheck.")
+
+
+def biqf_model_correspondence(ctx, tag):
+    """BalancedIncrementalQuantileFilter against the binary64 instance of Model/Biqf.v: histories of
+    interleaved queries (0-2 extra queries on unrelated chunks per step) and updates in chunks of 1-6;
+    after every call the returned indices, observed_samples_, queried_samples_ and history_sorted_ must
+    equal the model's, bit for bit.  np.quantile is the model's oracle: the harness tabulates it for
+    every window it derives itself from the definition (last w utilities of committed history + prefix)."""
+    import skactiveml.stream.budgetmanager as bm
+    from ..core import flit, listlit, natlist, natlit, zlit
+    terms, meta = [], []
+    for h in range(40 if ctx.is_quick else 400):
+        rng = ctx.rng("biqfm", tag, h)
+        w = int(rng.choice([1, 2, 3, 5, 8]))
+        wtol = rng.choice([1, 5, 50, 2.5])
+        wtol = float(wtol) if wtol == 2.5 else int(wtol)
+        b = float(rng.choice([0.1, 0.3, 0.5, 0.9, 1.0]))
+        m = bm.BalancedIncrementalQuantileFilter(w=w, w_tol=wtol, budget=b)
+        committed, table, ops = [], {}, []
+        vals = rng.choice([0.1, 0.5, 0.5, 0.9], size=4) if rng.random() < 0.3 else None      # tie-heavy streams
+
+        def draw(k):
+            return rng.choice(vals, size=k) if vals is not None else rng.random(k)
+
+        def tabulate(chunk):
+            for j in range(len(chunk)):
+                win = (committed + [float(x) for x in chunk[:j + 1]])[-w:]
+                table[tuple(float(x).hex() for x in win)] = (win, float(np.quantile(np.array(win), 1 - b)))
+
+        def state():
+            return (f"{zlit(int(m.observed_samples_))} {zlit(int(m.queried_samples_))} "
+                    f"{listlit([flit(x) for x in m.history_sorted_])}")
+        ok = True
+        try:
+            for step in range(int(rng.integers(4, 10))):
+                for _ in range(int(rng.integers(0, 3))):
+                    ex = draw(int(rng.integers(1, 6)))
+                    tabulate(ex)
+                    r = m.query_by_utility(ex)
+                    ops.append(f"BQuery {listlit([flit(x) for x in ex])} {natlist([int(i) for i in r])} {state()}")
+                c = draw(int(rng.integers(1, 7)))
+                tabulate(c)
+                r = m.query_by_utility(c)
+                ops.append(f"BQuery {listlit([flit(x) for x in c])} {natlist([int(i) for i in r])} {state()}")
+                m.update(np.zeros((len(c), 1)), r, c)
+                committed += [float(x) for x in c]
+                ops.append(f"BUpdate {listlit([flit(x) for x in c])} {natlist([int(i) for i in r])} {state()}")
+        except Exception as e:
+            ctx.hist[f"biqf_exception:{type(e).__name__}"] += 1
+            ok = False
+        if not ok:
+            continue
+        tab = listlit([f"({listlit([flit(x) for x in win])}, {flit(th)})" for win, th in table.values()])
+        terms.append(f"({flit(b)}, {natlit(w)}, {flit(float(wtol))}, {tab}, {listlit(ops)})")
+        meta.append({"w": w, "w_tol": wtol, "budget": b, "stream": [float(x).hex() for x in committed]})
+        ctx.count("BIQF_model")
+        if len(committed) > w:
+            ctx.nontriv(("biqfm", tag, h))
+    bad, err = ctx.coq_eval_cases("biqf_" + tag, BIQF_IMPORTS, "check_biqf", terms, chunk=20)
+    if err:
+        ctx.violation("BIQF", "model_eval_failed", err, {}, found_input=False, what="Coq evaluation of check_biqf failed")
+    for i in bad[:3]:
+        ctx.violation("BIQF", "model_mismatch", "binary64 instance of Model/Biqf.v disagrees with BalancedIncrementalQuantileFilter", meta[i],
+                      found_input=False, what="correspondence Model/Biqf.v <-> BalancedIncrementalQuantileFilter no longer holds")
